@@ -101,7 +101,7 @@ def run(ctx):
         ok = False
         for s in news:
             src = sources(f, s.args[0])
-            if ('const', 'events.jsonl') in src:
+            if ('const', 'events.jsonl', None) in src:
                 ok = True
         ctx.ob('C02.3', f, 'truth-file-literal', ok, '"events.jsonl" %s' % ('flows into EventLog::new' if ok else 'is named by code that does not hand it to EventLog::new'),
                line=f.blocks[bi]['t'].get('ln', f.line))
